@@ -23,6 +23,7 @@ Inductive op :=
 | ORemoveMembers (id : N) (ms : list member)
 | ORemoveIPSet (id : N)
 | OQueueResync
+| OSetFilter (f : option (list name))       (* SetFilter: None = no filter, Some l = only these set names are needed *)
 | OExternal (d : kdiff)                      (* somebody else changed the kernel between two applies *)
 | OApply (budget : option nat)               (* background re-lists allowed per ApplyUpdates (None = unlimited) *)
          (atts : list attempt_obs)           (* the choices made by ApplyUpdates, one per retry attempt *)
@@ -38,6 +39,10 @@ Definition spec_api (D : desired) (o : op) : desired :=
   | ORemoveIPSet id => delete id D
   | _ => D
   end.
+
+(* the sets that are asked for AND needed under the filter *)
+Definition eff (A : desired) (F : option (gset name)) : desired :=
+  filter (λ kv, needed_f F (main_name kv.1) = true) A.
 
 (* the kernel set Felix's main set name should be: desired type/parameters as `create` uses them, desired members *)
 Definition want_of (D : desired) (n : name) : option kset :=
@@ -80,7 +85,8 @@ Definition converged (D : desired) (excused : gset name) (k : kernel) : bool :=
 
 (* ---------------------------------------------------------------- oracle over a history *)
 Record ost := mkO {
-  o_D : desired;
+  o_D : desired;            (* every set asked for *)
+  o_F : option (gset name); (* the filter *)
   o_k : kernel;
   o_excused : gset name;    (* sets whose latest destroy was refused *)
   o_stale : nat             (* 2 = the kernel was changed behind Felix's back, 1 = ... and a resync has been requested since, 0 = no *)
@@ -98,15 +104,17 @@ Fixpoint ok_events (D : desired) (k : kernel) (ex : gset name) (evs : list (cmd 
 
 Definition ok_op (o : ost) (x : op) : bool * ost :=
   match x with
-  | OQueueResync => (true, mkO (o_D o) (o_k o) (o_excused o) (if Nat.eqb (o_stale o) 2 then 1%nat else o_stale o))
-  | OExternal d => (true, mkO (o_D o) (apply_diff (o_k o) d) (o_excused o) 2%nat)
+  | OQueueResync => (true, mkO (o_D o) (o_F o) (o_k o) (o_excused o) (if Nat.eqb (o_stale o) 2 then 1%nat else o_stale o))
+  | OSetFilter f => (true, mkO (o_D o) (list_to_set <$> f) (o_k o) (o_excused o) (o_stale o))
+  | OExternal d => (true, mkO (o_D o) (o_F o) (apply_diff (o_k o) d) (o_excused o) 2%nat)
   | OApply _ _ _ evs resched panicked =>
-      let '(b, k', ex') := ok_events (o_D o) (o_k o) (o_excused o) evs in
+      let D := eff (o_D o) (o_F o) in
+      let '(b, k', ex') := ok_events D (o_k o) (o_excused o) evs in
       let quiet := negb resched && negb panicked in
-      let b1 := if negb panicked && Nat.eqb (o_stale o) 0 then desired_exact (o_D o) k' else true in
-      let b2 := if quiet && Nat.leb (o_stale o) 1 then converged (o_D o) ex' k' else true in
-      (b && b1 && b2, mkO (o_D o) k' ex' (if quiet && Nat.eqb (o_stale o) 1 then 0%nat else o_stale o))
-  | _ => (true, mkO (spec_api (o_D o) x) (o_k o) (o_excused o) (o_stale o))
+      let b1 := if negb panicked && Nat.eqb (o_stale o) 0 then desired_exact D k' else true in
+      let b2 := if quiet && Nat.leb (o_stale o) 1 then converged D ex' k' else true in
+      (b && b1 && b2, mkO (o_D o) (o_F o) k' ex' (if quiet && Nat.eqb (o_stale o) 1 then 0%nat else o_stale o))
+  | _ => (true, mkO (spec_api (o_D o) x) (o_F o) (o_k o) (o_excused o) (o_stale o))
   end.
 
 Fixpoint ok_ops (o : ost) (xs : list op) : bool :=
@@ -118,7 +126,7 @@ Fixpoint ok_ops (o : ost) (xs : list op) : bool :=
 Definition mk_kernel (l : list (name * (meta * list member))) : kernel :=
   list_to_map (map (λ e, (e.1, (e.2.1, list_to_set e.2.2))) l).
 
-Definition ok_history (k0 : kernel) (xs : list op) : bool := ok_ops (mkO ∅ k0 ∅ 0) xs.
+Definition ok_history (k0 : kernel) (xs : list op) : bool := ok_ops (mkO ∅ None k0 ∅ 0) xs.
 
 (* ---------------------------------------------------------------- model run against the observations *)
 (* compare the model's events with the implementation's, rebuilding the implementation's kernels from the diffs *)
@@ -142,6 +150,7 @@ Definition run_op (fx : bool) (x : op) (z : st * kernel * kernel) : option (st *
   | ORemoveMembers id ms => Some (change_members false id (list_to_set ms) s, km, ki)
   | ORemoveIPSet id => Some (remove_ipset id s, km, ki)
   | OQueueResync => Some (queue_resync s, km, ki)
+  | OSetFilter f => Some (set_filter (list_to_set <$> f) s, km, ki)
   | OExternal d => Some (s, apply_diff km d, apply_diff ki d)
   | OApply budget atts dels evs resched panicked =>
       match apply_updates fx atts budget km s with
